@@ -1360,7 +1360,7 @@ class PyExec:
             shape = args[0]
             dt = self.dtype_name(args[1] if len(args) > 1 else kwargs.get("dtype", Const(np.float64)))
             shp = [self.num(x)[0] for x in (shape if isinstance(shape, (tuple, list)) else [shape])]
-            a = Arr(dt, shp, data="zeros")
+            a = Arr(dt, shp, data=uid("zeros"))  # a fresh allocation: its cells are its own
             return [("val", a, st)]
         if f is np.frombuffer:
             buf = args[0]
@@ -1377,7 +1377,7 @@ class PyExec:
                 st.pc.append(n >= 0)
             else:
                 n = z3.simplify(stop - buf.start)
-            a = Arr(dt, [n / isz if isz > 1 else n], buf=(buf.block.oid, buf.start, stop), data="shm:%s" % buf.block.oid)
+            a = Arr(dt, [n / isz if isz > 1 else n], buf=(buf.block.oid, buf.start, stop), data="shm:%s@%s" % (buf.block.oid, z3.simplify(buf.start)))  # cells are named by block and offset
             a.nbytes_total = n
             st.effects.append(("frombuffer", a, isz))
             return [("val", a, st)]
